@@ -429,6 +429,24 @@ func equalMethodInputParam(typ *types.Named) *types.Type {
 	return nil
 }
 
+// equalMethodHasValueReceiver reports whether the Equal method found by equalMethodInputParam
+// is declared with a value receiver.
+func equalMethodHasValueReceiver(typ *types.Named) bool {
+	for i := 0; i < typ.NumMethods(); i++ {
+		meth := typ.Method(i)
+		if meth.Name() != "Equal" {
+			continue
+		}
+		sig, ok := meth.Type().(*types.Signature)
+		if !ok || sig.Recv() == nil {
+			continue
+		}
+		_, isPtr := sig.Recv().Type().(*types.Pointer)
+		return !isPtr
+	}
+	return false
+}
+
 func (g *gen) field(thisField, thatField string, fieldType types.Type) (string, error) {
 	if named, isNamed := fieldType.(*types.Named); isNamed {
 		inputType := equalMethodInputParam(named)
@@ -455,13 +473,16 @@ func (g *gen) field(thisField, thatField string, fieldType types.Type) (string, 
 			inputType := equalMethodInputParam(named)
 			if inputType != nil {
 				ityp := *inputType
-				if _, ok := ityp.(*types.Pointer); ok {
+				_, isPtr := ityp.(*types.Pointer)
+				_, isIface := ityp.(*types.Interface)
+				if isPtr || isIface {
+					if equalMethodHasValueReceiver(named) {
+						// a method with a value receiver cannot be called through a nil pointer
+						return fmt.Sprintf("((%[1]s == nil && %[2]s == nil) || (%[1]s != nil && %[2]s != nil && %[3]s.Equal(%[2]s)))", thisField, thatField, wrap(thisField)), nil
+					}
 					return fmt.Sprintf("%s.Equal(%s)", wrap(thisField), thatField), nil
-				} else if _, ok := ityp.(*types.Interface); ok {
-					return fmt.Sprintf("%s.Equal(%s)", wrap(thisField), thatField), nil
-				} else {
-					// fall through to deferencing of pointers
 				}
+				// fall through to deferencing of pointers
 			} else {
 				return fmt.Sprintf("%s(%s, %s)", g.GetFuncName(fieldType, fieldType), thisField, thatField), nil
 			}
